@@ -1,2 +1,3 @@
 //! C20: the receivers are generated per run by gen/c20.py into src/generated.rs (not committed).
+#![allow(unused_macros)]
 include!("generated.rs");
